@@ -165,6 +165,9 @@ fn gen_stmt(r: &mut Rng, g: &SemGen, p: &mut Prog, faults: bool) -> Stmt {
             } else if k == Kind::Pct && !nums.is_empty() && r.chance(1, 2) {
                 let ni = *r.pick(&nums); let nv = Expr::Var(g.name_use(r, &p.pool[ni].clone()));
                 Stmt::Eval(Expr::Bin { l: Box::new(nv), op: *r.pick(&['+', '-']), r: Box::new(v), tight: false })
+            } else if k == Kind::Num && r.chance(1, 8) {
+                // the name supplies the amount of a unit quantity: "distance km"
+                if let Lit::Unit { word, family, index, .. } = g.unit(r, NumLit::int(1)) { Stmt::Eval(Expr::UnitOf { e: Box::new(v), word, family, index }) } else { Stmt::Eval(v) }
             } else if matches!(k, Kind::Money | Kind::Unit) && !nums.is_empty() && r.chance(1, 4) {
                 let ni = *r.pick(&nums); let nv = Expr::Var(g.name_use(r, &p.pool[ni].clone()));
                 Stmt::Eval(Expr::Bin { l: Box::new(v), op: '*', r: Box::new(nv), tight: false })
